@@ -357,7 +357,7 @@ pub fn kill_at_main(args: &[String]) -> i32 {
 pub fn fidelity_main(n_plans: u64) -> i32 {
     crate::init_process();
     let vseed = crate::driver::verif_seed();
-    let exe = std::env::current_exe().unwrap();
+    let exe = std::path::PathBuf::from("/proc/self/exe");
     let base = crate::driver::workdir_base();
     let mut pairs = 0;
     let mut mismatches = 0;
